@@ -276,7 +276,7 @@ check("C14",
            "after the table was built twice on the same Lexicon} x EVERY accessor of its interface (primitives, virtual extras, and the "
            "common accessors of Expr/Classic/Type/Directive/Stmt/Decl), 4 (quick) / 12 (thorough) operand rotations; for 45 kinds with "
            "settable links ALL subsets of links set (incl. links to untyped nodes), each on a fresh node; every Sequence reached through "
-           "an accessor is iterated and indexed at 0..size()+2, SIZE_MAX, SIZE_MAX/2, 2^32+size(); util::string::operator[]; "
+           "an accessor is walked four ways (++it, *it++, --it and it-- from end()) and indexed at 0..size()+2, SIZE_MAX, SIZE_MAX/2, 2^32+size(); util::string::operator[]; "
            "EVERY history of <= 4 (5) operations, from the empty container and from one with two members, over {add a member, read position 0 / last / middle, read position size() and size()+1 (refused), "
            "iterate} on 11 kinds of growing sequence (parameters, bases, handlers, pragma tokens, captures, using-designators, enumerators, "
            "expression list, scope members, a redeclaration set, block body) against a vector of the addresses the additions returned. Oracle: "
